@@ -54,3 +54,11 @@ META["C15"] = {
     "note": "Servers are called directly so panics are attributable; contents are held fixed while paging; read masks are not combined with paging; one pager runs a parent model configured with a case-folding id interceptor.",
     "technique": "rapid property-based testing against the sorted-listing model + hostile token/page-size generation (+ native fuzzing of tokens in the thorough tier)",
 }
+META["C01"] = {
+    "text": ("Model-based stateful testing: rapid generates sequences of Get/List/Set/Add/Update/Delete calls with independently drawn option subsets against a Value or Collection "
+             "(all-field-kinds message or a trait message; writable masks, id interceptors, seeded or colliding id RNG) and after every call compares the returned message, the gRPC "
+             "error code, callback invocations and the complete contents (Get of every id, sorted List) with a plain sequential reference store; a backpressured subscriber's event log "
+             "must equal the model's successful writes (so failed calls emit nothing). A bounded-exhaustive layer enumerates every sequence of curated calls up to length 3/2 (quick) and 4/3 (thorough)."),
+    "note": "Trusts the reference store (rlib/model.go) and reference masked update (lib/refmask.go); single caller; idempotent id interceptors; update masks strictly broader than the writable fields are not generated; the message returned alongside an error is not compared.",
+    "technique": "model-based stateful property testing (rapid) + bounded-exhaustive call sequences against a reference register/map",
+}
